@@ -8,5 +8,5 @@ INIT Init11
 NEXT Next11
 ACTION_CONSTRAINT EmitStep11
 INVARIANTS ListedIsAddressable ListShowsExactly ViewsAgreeOnSizeType StaysInRoot
-PROPERTIES ForksTravel ForksStay NewFolderNeverReplaces OpsChangeExactly
+PROPERTIES ForksTravel ForksStay BystandersKeepForks NewFolderNeverReplaces OpsChangeExactly
 CHECK_DEADLOCK FALSE
